@@ -225,7 +225,8 @@ impl TreeGen {
   }
 }
 
-pub fn src_of(t: &T) -> String { Ctx::default().build(t).source().to_string() }
+/// the text a tree denotes, computed by the independent reference (never by the crate, whose defects must not derail generation)
+pub fn src_of(t: &T) -> String { String::from_utf8_lossy(&crate::refmodel::ref_src(t)).to_string() }
 
 /// a SourceMapSource with inner map: outer map points (partly) into the inner source `name`
 pub fn gen_combined(rng: &mut Rng, cfg: &GenCfg) -> T {
